@@ -38,6 +38,20 @@ type mutation struct {
 // enter cache keys from them (e.g. the aggregate PeerAuthentication version).
 func writeTick() { time.Sleep(time.Microsecond) }
 
+// ticking makes the first application of a mutation advance the clock (a mutation is applied to every replica of a run
+// at one instant, as one write to the API server reaches all of them with one resource version).
+func ticking(m mutation) mutation {
+	done, f := false, m.apply
+	m.apply = func(inst *wisInstance) error {
+		if !done {
+			done = true
+			writeTick()
+		}
+		return f(inst)
+	}
+	return m
+}
+
 // world tracks which objects exist so that create/update/delete are chosen sensibly.
 type world struct {
 	// collide: which hostname collisions between ServiceEntries the generator may produce.
@@ -534,7 +548,6 @@ func (wd *world) put(kind, ns, name string, spec config.Spec, ctime int) mutatio
 		nc.ResourceVersion = ""
 		wd.exists[key] = nc
 		return mutation{kind: kind, desc: fmt.Sprintf("update %s %v", key, compactSpec(spec)), apply: func(inst *wisInstance) error {
-			writeTick()
 			_, err := inst.fds.Store().Update(nc.DeepCopy())
 			return err
 		}}
@@ -542,7 +555,6 @@ func (wd *world) put(kind, ns, name string, spec config.Spec, ctime int) mutatio
 	c := config.Config{Meta: config.Meta{GroupVersionKind: g, Name: name, Namespace: ns, CreationTimestamp: wlT0.Add(time.Duration(ctime) * time.Second)}, Spec: spec}
 	wd.exists[key] = c
 	return mutation{kind: kind, desc: fmt.Sprintf("create %s %v", key, compactSpec(spec)), apply: func(inst *wisInstance) error {
-		writeTick()
 		_, err := inst.fds.Store().Create(c.DeepCopy())
 		return err
 	}}
@@ -553,7 +565,6 @@ func (wd *world) del(kind, ns, name string) mutation {
 	key := kind + "/" + ns + "/" + name
 	delete(wd.exists, key)
 	return mutation{kind: kind, desc: "delete " + key, apply: func(inst *wisInstance) error {
-		writeTick()
 		return inst.fds.Store().Delete(g, name, ns, nil)
 	}}
 }
@@ -697,7 +708,8 @@ func (wd *world) startRecipe(tp *engine.Tape) {
 	}
 }
 
-func (wd *world) next(tp *engine.Tape) mutation {
+func (wd *world) next(tp *engine.Tape) (m mutation) {
+	defer func() { m = ticking(m) }()
 	defer wd.everTags()
 	if len(wd.recipe) == 0 && wd.collide == 0 && tp.Bool(1, 6, "startRecipe") {
 		wd.startRecipe(tp)
@@ -731,7 +743,6 @@ func (wd *world) next(tp *engine.Tape) mutation {
 		v := wd.mesh
 		return mutation{kind: "MeshConfig", desc: fmt.Sprintf("mesh configuration reload: variant %d (accessLogFile=%v registryOnly=%v connectTimeout3s=%v)", v, v&1 != 0, v&2 != 0, v&4 != 0),
 			apply: func(inst *wisInstance) error {
-				writeTick()
 				inst.setMesh(v)
 				return nil
 			}}
@@ -746,7 +757,6 @@ func (wd *world) next(tp *engine.Tape) mutation {
 	if exists && tp.Bool(1, 3, "delete") {
 		delete(wd.exists, key)
 		return mutation{kind: kind, desc: "delete " + key, apply: func(inst *wisInstance) error {
-			writeTick()
 			return inst.fds.Store().Delete(g, name, ns, nil)
 		}}
 	}
@@ -757,7 +767,6 @@ func (wd *world) next(tp *engine.Tape) mutation {
 		nc.ResourceVersion = ""
 		wd.exists[key] = nc
 		return mutation{kind: kind, desc: fmt.Sprintf("update %s %v", key, compactSpec(spec)), apply: func(inst *wisInstance) error {
-			writeTick()
 			_, err := inst.fds.Store().Update(nc.DeepCopy())
 			return err
 		}}
@@ -773,7 +782,6 @@ func (wd *world) next(tp *engine.Tape) mutation {
 	}
 	wd.exists[key] = c
 	return mutation{kind: kind, desc: fmt.Sprintf("create %s %v", key, compactSpec(spec)), apply: func(inst *wisInstance) error {
-		writeTick()
 		_, err := inst.fds.Store().Create(c.DeepCopy())
 		return err
 	}}
@@ -810,11 +818,11 @@ func (wd *world) endpointChange(tp *engine.Tape, hostname string) *mutation {
 		g, name, ns := nc.GroupVersionKind, nc.Name, nc.Namespace
 		_ = g
 		_, _ = name, ns
-		return &mutation{kind: "ServiceEntry", desc: fmt.Sprintf("update endpoints of %s -> %v", k, nse.Endpoints), apply: func(inst *wisInstance) error {
-			writeTick()
+		m := ticking(mutation{kind: "ServiceEntry", desc: fmt.Sprintf("update endpoints of %s -> %v", k, nse.Endpoints), apply: func(inst *wisInstance) error {
 			_, err := inst.fds.Store().Update(nc.DeepCopy())
 			return err
-		}}
+		}})
+		return &m
 	}
 	return nil
 }
